@@ -13,7 +13,7 @@ def run(tier, rep):
         "record pools are checked first: every 'ok' record transforms alone and every failing record fails alone (otherwise exit 2)",
     ]
     tr = os.path.join(vlib.scratch(), "c10.trace.ndjson")
-    recs, _ = vlib.run_vh(["c10-drive", tr, "400" if thorough else "40"], timeout=3000)
+    recs, _ = vlib.run_vh(["c10-drive", tr, "4000" if thorough else "40"], timeout=3000)
     for x in recs:
         if x.get("kind") == "violation":
             rep.violation(x)
